@@ -90,90 +90,124 @@ def run(ctx):
 
     # ---- S1 times ------------------------------------------------------------------
     s1 = ctx.rule("PROV.S1-times", "a segment ends at its entry's frame and starts one frame after its predecessor entry ends (0 without predecessor), clamped to its end for null entries; word and grammar score come from the same entry's link", floor=6)
+    s2 = ctx.rule("LIN.S2-score", "ascr + lscr equals score(entry) - score(predecessor) (just score(entry) without predecessor) as a symbolic identity on every path, so segment scores telescope to the path score; prob = ascr + lscr", floor=3)
     f = fns["fsg_seg_bp2itor"]
     seg, he = f.params[0][0], f.params[1][0]
-    st = {}
-    for s in paths.stores(f):
-        if s["rec"] == "seg_iter_s":
-            st.setdefault(s["field"], []).append(s)
-    def form(s, subst=True):
-        return f.canon(s["rhs"], subst=subst) if s["rhs"] is not None else s["op"]
-    srch = S(f)
+    # decided case by case over the paths of the (loop-free) function, so that temporaries, conditional
+    # expressions vs. if / else and the order of independent statements do not matter (symx.py)
+    from .. import symx
+    pths = symx.run_paths(f, P)
     PH = "fsg_history_entry_get(%s->search->history, %s->pred)" % (seg, he)
-    ctx.check(s1, [form(s) for s in st.get("ef", [])] == ["%s->frame" % he], key(f, "ef"), f.where(f.root), "segment end is %s" % [form(s) for s in st.get("ef", [])])
-    sfs = st.get("sf", [])
-    sf_forms = [form(s, subst=False) for s in sfs]
-    ctx.check(s1, len(sfs) == 2 and sf_forms[0] == "(ph ? (1 + ph->frame) : 0)" and sf_forms[1] == "%s->ef" % seg, key(f, "sf"), f.where(f.root), "segment start is computed as %s, expected `ph ? ph->frame + 1 : 0` then the clamp to ef" % sf_forms)
-    if len(sfs) == 2:
-        g = paths.guarded(f, sfs[1]["node"], lambda fn, c, pol: paths.rel(fn, c, pol, subst=False) == ("%s->ef" % seg, "<", "%s->sf" % seg))
-        ctx.check(s1, g, key(f, "sf-clamp"), f.where(sfs[1]["node"]), "start is overwritten with the end frame outside the `sf > ef` case (a real word would lose its duration)")
-    # ph provenance
-    phs = [s for s in paths.stores(f) if s["path"] == "ph" and s["rhs"] is not None and not paths.is_const(f, s["rhs"], 0)]
-    okph = len(phs) == 1 and f.canon(phs[0]["rhs"]) == PH
-    if okph:
-        okph = paths.guarded(f, phs[0]["node"], lambda fn, c, pol: paths.rel(fn, c, pol) in (("0", "<=", "%s->pred" % he), ("0", "<=", "bp = %s->pred" % he)) or paths.rel(fn, c, pol, subst=False) == ("0", "<=", "bp = %s->pred" % he))
-    ctx.check(s1, okph, key(f, "pred-entry"), f.where(f.root), "predecessor entry is not fetched at `%s->pred` under pred >= 0 (found %s)" % (he, [f.canon(s["rhs"]) for s in phs]))
-    phinit = [v for v in f.find("Var") if f.nodes[v]["name"] == "ph"]
-    ctx.check(s1, len(phinit) == 1 and f.ch(phinit[0]) and paths.is_const(f, f.ch(phinit[0])[0], 0), key(f, "pred-null"), f.where(f.root), "ph is not NULL when there is no predecessor")
-    ctx.check(s1, [form(s) for s in st.get("word", [])] == ["((-1 == %s->fsglink->wid) ? \"(NULL)\" : %s->search->fsg->vocab[%s->fsglink->wid])" % (he, seg, he)], key(f, "word"), f.where(f.root), "segment word is %s" % [form(s) for s in st.get("word", [])])
-    ctx.check(s1, [form(s) for s in st.get("lscr", [])] == ["(%s->fsglink->logs2prob >> 10)" % he], key(f, "lscr"), f.where(f.root), "grammar score is %s" % [form(s) for s in st.get("lscr", [])])
+    EF = "%s->frame" % he
+    bad = {}
+    seen = {"pred": 0, "nopred": 0}
 
-    # ---- S2 score identity ----------------------------------------------------------------
-    s2 = ctx.rule("LIN.S2-score", "ascr + lscr equals score(entry) - score(predecessor) (just score(entry) without predecessor) as a symbolic identity on both branches, so segment scores telescope to the path score; prob = ascr + lscr", floor=3)
-    for s in st.get("ascr", []):
-        withph = paths.guarded(f, s["node"], lambda fn, c, pol: paths.cond_atoms(fn, c, pol, subst=False) == ("ph", True))
-        p = lin.poly(f, s["rhs"], subst=False)
-        total = lin.p_add(p, lin.p_atom("%s->lscr" % seg))
-        want = lin.p_atom("%s->score" % he)
-        if withph:
-            want = lin.p_add(want, lin.p_atom("ph->score"), -1)
-        ctx.check(s2, total == want, key(f, "ascr:" + ("pred" if withph else "nopred")), f.where(s["node"]), "ascr + lscr = %s, expected %s: segment scores no longer add up to the path score" % (lin.p_str(total), lin.p_str(want)), lin.p_str(total))
-    ctx.check(s2, len(st.get("ascr", [])) == 2, key(f, "ascr-branches"), f.where(f.root), "expected ascr on the predecessor and the no-predecessor branch")
-    pr = st.get("prob", [])
-    ctx.check(s2, len(pr) == 1 and lin.poly(f, pr[0]["rhs"], subst=False) == lin.p_add(lin.p_atom("%s->lscr" % seg), lin.p_atom("%s->ascr" % seg)), key(f, "prob"), f.where(f.root), "prob is not ascr + lscr")
-    # lscr must be assigned before it is used in ascr
-    for s in st.get("ascr", []):
-        ctx.check(s2, paths.always_before(f, s["node"], lambda e: e == st["lscr"][0]["node"]) if st.get("lscr") else False, key(f, "lscr-first"), f.where(s["node"]), "ascr uses lscr before it is set for this segment")
+    def note(k_, msg):
+        bad.setdefault(k_, msg)
+    for pt in pths:
+        nopred_by_index = pt.atoms.get(("<", "%s->pred" % he, "0"))
+        fetched = [c_ for c_ in pt.calls if c_[0] == "fsg_history_entry_get"]
+        if nopred_by_index is None and fetched:
+            note("pred-entry", "the predecessor entry is fetched without testing pred >= 0")
+        if any(c_[1] != ["%s->search->history" % seg, "%s->pred" % he] for c_ in fetched):
+            note("pred-entry", "predecessor entry is fetched as %s, expected %s" % (["%s(%s)" % (c_[0], ", ".join(c_[1])) for c_ in fetched], PH))
+        if nopred_by_index is True and fetched:
+            note("pred-entry", "a predecessor is fetched although pred < 0")
+        haspred = nopred_by_index is False and bool(fetched) and pt.atoms.get(("nz", PH)) is not False
+        if nopred_by_index is False and not fetched:
+            note("pred-null", "pred >= 0 but the predecessor entry is not looked at")
+        seen["pred" if haspred else "nopred"] += 1
+        START = lin.p_add(lin.p_atom("(%s)->frame" % PH), lin.p_const(1)) if haspred else {}
+        PSC = lin.p_atom("(%s)->score" % PH) if haspred else {}
+        ef = pt.get("%s->ef" % seg)
+        sf = pt.get("%s->sf" % seg)
+        if lin.p_str(ef) != EF:
+            note("ef", "segment end is %s, expected %s" % (lin.p_str(ef), EF))
+        st_, ef_ = lin.p_str(START), lin.p_str(ef)
+        clamp = pt.atoms.get(("<", ef_, st_))
+        if clamp is None and pt.atoms.get(("<", st_, ef_)) is True:
+            clamp = False
+        if clamp is None:
+            note("sf-clamp", "on some path the start (%s) is not compared with the end: a null entry after a word would start after it ends" % st_)
+        elif clamp and lin.p_str(sf) != ef_:
+            note("sf-clamp", "start %s exceeds the end but the segment starts at %s" % (st_, lin.p_str(sf)))
+        elif not clamp and sf != START:
+            note("sf", "segment start is %s where %s is expected (%s predecessor)" % (lin.p_str(sf), st_, "with" if haspred else "without"))
+        lscr = pt.get("%s->lscr" % seg)
+        if lin.p_str(lscr) != "(%s->fsglink->logs2prob >> 10)" % he:
+            note("lscr", "grammar score is %s" % lin.p_str(lscr))
+        isnull = pt.atoms.get(("==", "-1", "%s->fsglink->wid" % he))
+        word = lin.p_str(pt.get("%s->word" % seg))
+        wantw = {True: '"(NULL)"', False: "%s->search->fsg->vocab[%s->fsglink->wid]" % (seg, he)}.get(isnull)
+        if wantw is None or word != wantw:
+            note("word", "segment word is %s, expected %s" % (word, wantw))
+        total = lin.p_add(pt.get("%s->ascr" % seg), lscr)
+        want = lin.p_add(lin.p_atom("%s->score" % he), PSC, -1)
+        if total != want:
+            note("ascr:" + ("pred" if haspred else "nopred"), "ascr + lscr = %s, expected %s: segment scores no longer add up to the path score" % (lin.p_str(total), lin.p_str(want)))
+        if pt.get("%s->prob" % seg) != total:
+            note("prob", "prob is %s, not ascr + lscr" % lin.p_str(pt.get("%s->prob" % seg)))
+    if not pths or not seen["pred"] or not seen["nopred"]:
+        note("pred-null", "expected paths with and without a predecessor entry (%s)" % seen)
+    for k_ in ("ef", "sf", "sf-clamp", "pred-entry", "pred-null", "word", "lscr"):
+        ctx.check(s1, k_ not in bad, key(f, k_), f.where(f.root), bad.get(k_, ""))
+    for k_ in ("ascr:pred", "ascr:nopred", "prob"):
+        ctx.check(s2, k_ not in bad, key(f, k_), f.where(f.root), bad.get(k_, ""))
 
     # ---- S3 hypothesis string passes ---------------------------------------------------------
     s3 = ctx.rule("TWIN.S3-hyp-passes", "the length pass and the fill pass of fsg_search_hyp skip the same entries, take the word from the same source, and count strlen+1 per word where the fill writes strlen bytes plus one separator except at the buffer start; the buffer is the counted length", floor=6)
     f = fns["fsg_search_hyp"]
     loops = [w for w in f.find("While") if paths.rel(f, f.ch(w)[0], True, subst=False) and paths.rel(f, f.ch(w)[0], True, subst=False)[1] == "<"]
     ctx.check(s3, len(loops) == 2, key(f, "two-passes"), f.where(f.root), "expected a length pass and a fill pass")
-    sigs = []
-    for w in loops:
-        body = f.ch(w)[1]
-        skips = []
-        for c in f.find("Continue", root=body):
-            b = paths.pos_of(f, c)[0]
-            conds = sorted(paths.cond_atoms(f, cc, pol) for (s0, d0, cc, pol) in f.cfg.cond_edges() if d0 == b)
-            skips.append(tuple(conds))
-        words = [f.canon(s["rhs"]) for s in paths.stores(f, body) if s["path"] == "baseword"]
-        sigs.append((sorted(skips), words))
-    if len(sigs) == 2:
-        ctx.check(s3, sigs[0] == sigs[1] and len(sigs[0][0]) == 1, key(f, "same-skip-and-word"), f.where(loops[0]), "length pass %s and fill pass %s disagree" % (sigs[0], sigs[1]), str(sigs[0]))
-        skip = sigs[0][0][0] if sigs[0][0] else ()
-        want_skip = sorted([("(fsg_history_entry_get(%s->history, bp)->fsglink->wid < 0)" % S(f), True), ("fsg_model_is_filler", True)])
-        okskip = len(skip) == 2 and any(a[0].endswith("->wid < 0)") and a[1] for a in skip) and any(("is_filler" in a[0] or "silwords" in a[0]) and a[1] for a in skip)
-        ctx.check(s3, okskip, key(f, "skip-pred"), f.where(loops[0]), "entries skipped under %s, expected exactly null (wid < 0) or filler entries" % (skip,))
-        wsrc = sigs[0][1]
-        ctx.check(s3, len(wsrc) == 1 and wsrc[0].startswith("(dict_wordid(") is False and "basewid" in wsrc[0] or (len(wsrc) == 1 and wsrc[0].startswith("dict_basestr(")), key(f, "base-form"), f.where(loops[0]), "word text is `%s`, not the base form (alternate marker removed)" % wsrc)
+    # one iteration of each pass, path by path (symx.loop_paths): which entries are skipped, which text is
+    # taken, what is counted and what is written do not depend on how the source spells it
     if len(loops) == 2:
-        b1, b2 = f.ch(loops[0])[1], f.ch(loops[1])[1]
-        acc = [s for s in paths.stores(f, b1) if s["path"] == "len"]
-        ctx.check(s3, len(acc) == 1 and acc[0]["op"] == "+=" and f.canon(acc[0]["rhs"], subst=False) == "(1 + strlen(baseword))", key(f, "count"), f.where(loops[0]), "length pass counts %s per word" % [f.canon(s["rhs"], subst=False) for s in acc])
-        mc = f.calls("memcpy", root=b2)
-        okm = len(mc) == 1 and [f.canon(a, subst=False) for a in f.args(mc[0])] == ["c", "baseword", "len"]
-        ctx.check(s3, okm, key(f, "copy"), f.where(loops[1]), "fill pass does not copy the word with memcpy(c, baseword, len)")
-        ln = [s for s in paths.stores(f, b2) if s["path"] == "len"]
-        cd = [s for s in paths.stores(f, b2) if s["path"] == "c"]
-        okc = len(ln) == 1 and f.canon(ln[0]["rhs"], subst=False) == "strlen(baseword)" and [(s["op"], f.canon(s["rhs"], subst=False) if s["rhs"] is not None else None) for s in cd] == [("-=", "len"), ("--", None)]
-        ctx.check(s3, okc, key(f, "cursor"), f.where(loops[1]), "fill pass moves the cursor by %s" % [(s["op"], f.canon(s["rhs"], subst=False) if s["rhs"] is not None else None) for s in cd])
-        if okc and okm:
-            # cursor moved back before the copy; separator only when not at buffer start
-            ctx.check(s3, paths.pos_of(f, cd[0]["node"]) < paths.pos_of(f, mc[0]) or paths.always_before(f, mc[0], lambda e: e == cd[0]["node"]), key(f, "move-then-copy"), f.where(mc[0]), "word copied before the cursor was moved back")
-            g = paths.guarded(f, cd[1]["node"], lambda fn, c, pol: paths.rel(fn, c, pol, subst=False) in (("%s->hyp_str" % S(f), "<", "c"), ("search->hyp_str", "<", "c")))
-            ctx.check(s3, g, key(f, "separator-guard"), f.where(cd[1]["node"]), "separator written without the `c > hyp_str` test (writes before the buffer for the first word)")
+        from .. import symx
+        sig = []
+        for w in loops:
+            rows = []
+            for pt in symx.loop_paths(f, w, P):
+                if pt.end != "next":
+                    continue
+                sl = [c_ for c_ in pt.calls if c_[0] == "strlen"]
+                cp = [c_ for c_ in pt.calls if c_[0] in ("memcpy", "strcpy", "memmove")]
+                widk = [k_ for k_ in pt.atoms if k_[0] == "<" and k_[1].endswith("->fsglink->wid") and k_[2] == "0"]
+                nullw = pt.atoms.get(widk[0]) if widk else None
+                fill = any(k_[0] == "nz" and "silwords[" in k_[1] and v_ for k_, v_ in pt.atoms.items())
+                rows.append({"skip": not sl and not cp, "nullw": nullw, "fill": fill, "word": sl[0][1][0] if sl else None, "pt": pt, "copy": cp, "n_strlen": len(sl)})
+            sig.append(rows)
+        proj = [sorted(set((r["skip"], r["nullw"], r["fill"], r["word"]) for r in rows), key=str) for rows in sig]
+        ctx.check(s3, proj[0] == proj[1] and any(r[0] for r in proj[0]) and any(not r[0] for r in proj[0]), key(f, "same-skip-and-word"), f.where(loops[0]), "length pass and fill pass disagree on which entries they skip or which text they take: %s vs %s" % ([r[:3] for r in proj[0]], [r[:3] for r in proj[1]]), str([r[:3] for r in proj[0]]))
+        okskip = all(r["nullw"] is not None and r["skip"] == (r["nullw"] is True or r["fill"]) for rows in sig for r in rows)
+        ctx.check(s3, okskip, key(f, "skip-pred"), f.where(loops[0]), "the entries skipped are not exactly the null (wid < 0) and filler entries: %s" % sorted(set((r["skip"], r["nullw"], r["fill"]) for rows in sig for r in rows), key=str))
+        words = sorted(set(r["word"] for rows in sig for r in rows if r["word"]))
+        ctx.check(s3, bool(words) and all(".basewid].word" in w_ or w_.startswith("dict_basestr(") for w_ in words), key(f, "base-form"), f.where(loops[0]), "word text is `%s`, not the base form (alternate marker removed)" % words)
+        okcount = True
+        for r in sig[0]:
+            if not r["skip"]:
+                want = lin.p_add(lin.p_add(lin.p_atom("len"), lin.p_const(1)), lin.p_atom("strlen(%s)" % r["word"]))
+                okcount = okcount and r["pt"].get("len") == want and r["n_strlen"] == 1
+        ctx.check(s3, okcount, key(f, "count"), f.where(loops[0]), "length pass does not add strlen(word) + 1 per word: %s" % sorted(set(lin.p_str(r["pt"].get("len")) for r in sig[0] if not r["skip"]))[:2])
+        okcopy = okcur = oksep = True
+        HYP = "%s->hyp_str" % ("search" if S(f) == "search" else S(f))
+        for r in sig[1]:
+            if r["skip"]:
+                continue
+            n = lin.p_atom("strlen(%s)" % r["word"])
+            dst = lin.p_add(lin.p_atom("c"), n, -1)
+            if len(r["copy"]) != 1 or r["copy"][0][1] != [lin.p_str(dst), r["word"], lin.p_str(n)]:
+                okcopy = False
+            sep = r["pt"].atoms.get(("<", HYP, lin.p_str(dst)), r["pt"].atoms.get(("<", "search->hyp_str", lin.p_str(dst))))
+            cfin = r["pt"].get("c")
+            if sep is None:
+                oksep = oksep and cfin == dst and False
+            elif sep:
+                okcur = okcur and cfin == lin.p_add(dst, lin.p_const(1), -1)
+            else:
+                okcur = okcur and cfin == dst
+        ctx.check(s3, okcopy, key(f, "copy"), f.where(loops[1]), "fill pass does not copy strlen(word) bytes of the word to c - strlen(word)")
+        ctx.check(s3, okcur, key(f, "cursor"), f.where(loops[1]), "fill pass does not leave the cursor at the start of the word (one before it when a separator is due)")
+        ctx.check(s3, oksep, key(f, "separator-guard"), f.where(loops[1]), "separator written without the `c > hyp_str` test (writes before the buffer for the first word)")
         al = [s for s in paths.stores(f) if s["field"] == "hyp_str" and s["rhs"] is not None and "calloc" in f.canon(s["rhs"], subst=False)]
         ctx.check(s3, len(al) == 1 and f.canon(al[0]["rhs"], subst=False).startswith("__ckd_calloc__(1, len,"), key(f, "alloc"), f.where(f.root), "buffer is not allocated with the counted length")
         ci = [s for s in paths.stores(f) if s["path"] == "c" and s["op"] == "=" and s["rhs"] is not None]
@@ -248,7 +282,20 @@ def run(ctx):
     ctx.check(s6, len(al) == 1 and f.canon(al[0]["rhs"], subst=False).startswith("__ckd_calloc__(itor->n_hist, 8,"), key(f, "alloc"), f.where(f.root), "segment list is not allocated n_hist entries")
     g = fns["fsg_seg_next"]
     ctx.touch(g)
-    nx = g.calls("fsg_seg_bp2itor")
-    ctx.check(s6, len(nx) == 1 and g.canon(g.args(nx[0])[1]) == "%s->hist[%s->cur]" % (S(g), S(g)) or (len(nx) == 1 and g.canon(g.args(nx[0])[1], subst=False) == "itor->hist[itor->cur]"), key(g, "next"), g.where(g.root), "next segment is not hist[cur]")
-    conds = [paths.rel(g, c, pol, subst=False) for (s0, d0, c, pol) in g.cfg.cond_edges() if pol]
-    ctx.check(s6, any(r and r[1] == "==" and "++itor->cur" in (r[0], r[2]) and "itor->n_hist" in (r[0], r[2]) for r in conds), key(g, "end"), g.where(g.root), "iterator does not stop when ++cur == n_hist")
+    from .. import symx
+    sg = g.params[0][0]
+    oknext = okend = True
+    npaths = 0
+    for pt in symx.run_paths(g, P):
+        npaths += 1
+        nxt = lin.p_add(lin.p_atom("%s->cur" % sg), lin.p_const(1))
+        atend = pt.atoms.get(("==",) + tuple(sorted((lin.p_str(nxt), "%s->n_hist" % sg))))
+        b2i = [c_ for c_ in pt.calls if c_[0] == "fsg_seg_bp2itor"]
+        if pt.stored("%s->cur" % sg) != nxt or atend is None:
+            okend = False
+        elif atend:
+            okend = okend and not b2i and pt.ret is not None and lin.p_str(pt.ret) == "0"
+        else:
+            oknext = oknext and len(b2i) == 1 and b2i[0][1] == [sg, "%s->hist[%s]" % (sg, lin.p_str(nxt))] and pt.ret is not None and lin.p_str(pt.ret) == sg
+    ctx.check(s6, oknext and npaths >= 2, key(g, "next"), g.where(g.root), "next segment is not hist[cur + 1] of the same iterator")
+    ctx.check(s6, okend and npaths >= 2, key(g, "end"), g.where(g.root), "iterator does not stop (returning NULL) exactly when cur + 1 == n_hist")
